@@ -35,7 +35,20 @@ ShapeOK == /\ Len(T.X) = NOut /\ Len(T.Y) = NOut
 ObservedLookAhead == {<<R, c, k>> \in (Off + 1 .. Len(T.X)) \X (ncol + 1 .. ncol + past) \X (1 .. delay2 - delay1) :
                          R \in DOMAIN T.Y /\ c \in DOMAIN T.X[R] /\ k \in DOMAIN T.Y[R] /\ T.X[R][c] >= T.Y[R][k]}
 
-Observe == /\ pc = "done" /\ l = 1
+\* DummyTimeSeriesRegressor.predict (kind "dummy"): the forecast of every horizon of output row R is the newest
+\* lag of that row - strictly older than each target it is a forecast of
+WantPred(R, k) == IF R < Off THEN NaN ELSE Yv(Newest(R - Off))
+BadPred == {<<R, k>> \in (0 .. NOut - 1) \X (0 .. delay2 - delay1 - 1) :
+              ~(R + 1 \in DOMAIN T.pred /\ k + 1 \in DOMAIN T.pred[R + 1] /\ T.pred[R + 1][k + 1] = WantPred(R, k))}
+PredLooksAhead == {<<R, k>> \in (Off .. NOut - 1) \X (0 .. delay2 - delay1 - 1) :
+              R + 1 \in DOMAIN T.pred /\ k + 1 \in DOMAIN T.pred[R + 1] /\ T.pred[R + 1][k + 1] >= WantY(R, k)}
+ObserveDummy == /\ pc = "done" /\ l = 1 /\ T.kind = "dummy"
+                /\ Require(BadPred = {}, T.id, "ForecastIsNewestLag", l, [cells |-> BadPred])
+                /\ Require(PredLooksAhead = {}, T.id, "NoLookAhead", l, [cells |-> PredLooksAhead])
+                /\ Accepted(T.id)
+                /\ l' = 2 /\ UNCHANGED <<vars, tid>>
+
+Observe == /\ pc = "done" /\ l = 1 /\ T.kind = "build"
            /\ Require(T.nrow = NRow, T.id, "NRow", l, [got |-> T.nrow, want |-> NRow])
            /\ Require(ShapeOK, T.id, "Shape", l, [rows |-> Len(T.X), want |-> NOut])
            /\ Require(BadX = {}, T.id, "LagsAndExogenous", l, [cells |-> BadX])
@@ -46,6 +59,6 @@ Observe == /\ pc = "done" /\ l = 1
            /\ Accepted(T.id)
            /\ l' = 2 /\ UNCHANGED <<vars, tid>>
 
-TNext == Silent \/ Observe
+TNext == Silent \/ Observe \/ ObserveDummy
 TSpec == TInit /\ [][TNext]_tvars
 =============================================================================
